@@ -1,7 +1,7 @@
 """C14 — schema validator accepts exactly valid chains (structural part). DESIGN §4 C14."""
 import ast
 
-from .common import ctx, returns, calls_in_ctx, reach_from_succ, site, srcs_text, const_bool, resolve_call, bound_args, test_awaited_call
+from .common import ctx, returns, calls_in_ctx, reach_from_succ, site, srcs_text, const_bool, resolve_call, bound_args, test_awaited_call, explore, full_text, alias_text
 from ..flow import callee_attr
 from ..loader import AnalysisError, norm, FuncT
 from ..verdict import EnumDomain, enum_members, pruned_edges
@@ -172,9 +172,12 @@ def run(R):
                 names = []
                 for h in hs:
                     names += P.handler_names(va.f.mod, h.ast)
-                    rr = [x for x in returns(va) if h.ast in x.in_handlers]
-                    if not rr or any(const_bool(x.ast.value) is not False for x in rr) or \
-                            va.cfg.exit.id in va.cfg.reachable(h, removed_nodes={x.id for x in rr}, follow_exc=False):
+                    # from the handler on (path-sensitively: the handler may leave the verdict to a later `if not key_bits: return False`)
+                    # only `return False` may be reached, and no signature verification
+                    hr = explore(va, lambda e: None, start=h)
+                    rr = [x for x in returns(va) if x.id in hr]
+                    verif = [n_ for n_ in va.cfg.nodes if n_.id in hr and any(callee_attr(c_) == '_verify_sig' for c_ in n_.calls())]
+                    if not rr or any(const_bool(x.ast.value) is not False for x in rr) or verif or va.cfg.falloff.id in hr:
                         probs.append(('a failed certificate fetch does not end in rejection', h.ast))
                 for need in ('ndn.types.ValidationFailure', 'ndn.types.InterestTimeout', 'ndn.types.InterestNack'):
                     if not P.caught_by(need, names):
@@ -183,11 +186,13 @@ def run(R):
                 probs.append((f'key material comes from {t}', s.node.ast if s.node.ast is not None else va.f.node))
     # cert_name = key locator name of the packet being validated
     cds = [v for n_ in va.cfg.nodes for (nm, v) in va.cfg.defs_of(n_) if nm == 'cert_name']
-    if not cds or any(not (isinstance(v, ast.AST) and ast.unparse(v) == 'sig_ptrs.signature_info.key_locator.name') for v in cds):
+    if not cds or any(not (isinstance(v, ast.AST) and alias_text(va, v) == 'sig_ptrs.signature_info.key_locator.name') for v in cds):
         probs.append(('cert_name is not the key locator name of the packet', va.f.node))
     # storage.save only with (cert_name, fetched bits)
     for (n_, c) in calls_in_ctx(va, attr='save'):
-        if [ast.unparse(a) for a in c.args] != ['cert_name', 'key_bits']:
+        fetched = len(c.args) == 2 and all(s_.kind == 'unpack' and s_.extra == 2 and 'express_interest' in ast.unparse(s_.expr) for s_ in va.sources(n_, c.args[1])) \
+            and bool(va.sources(n_, c.args[1]))
+        if len(c.args) != 2 or ast.unparse(c.args[0]) != 'cert_name' or not (fetched or ast.unparse(c.args[1]) == 'key_bits'):
             probs.append((f'key stored as {norm(c)}', c))
     if probs:
         for (what, construct) in probs:
@@ -250,7 +255,7 @@ def run(R):
         if not (isinstance(v, ast.Call) and ast.unparse(v.func) == 'checker.check' and [ast.unparse(a) for a in v.args] == ['name', 'cert_name']):
             probs.append((f'`{norm(r.ast)}` is not checker.check(name, cert_name)', r.ast))
     cds = [v for n_ in vn.cfg.nodes for (nm, v) in vn.cfg.defs_of(n_) if nm == 'cert_name']
-    if not cds or any(not (isinstance(v, ast.AST) and ast.unparse(v) == 'sig_ptrs.signature_info.key_locator.name') for v in cds):
+    if not cds or any(not (isinstance(v, ast.AST) and alias_text(vn, v) == 'sig_ptrs.signature_info.key_locator.name') for v in cds):
         probs.append(('cert_name is not the key locator name', vn.f.node))
     if vn.cfg.falloff.id in vn.cfg.reachable(follow_exc=False):
         probs.append(('a path falls off the end', vn.f.node))
@@ -316,10 +321,20 @@ def run(R):
     raises = [n_ for n_ in sc.cfg.nodes if n_.kind == 'raise']
     tfn = [t for t in sc.cfg.nodes if t.kind == 'test' and 'validate_user_fns' in ast.unparse(t.ast)]
     tsub = [t for t in sc.cfg.nodes if t.kind == 'test' and 'issubset' in ast.unparse(t.ast)]
-    tnon = [t for t in sc.cfg.nodes if t.kind == 'test' and ast.unparse(t.ast) == 'ta_matches']
+    # `<roots of trust>.issubset(<rules the anchor's name matches>)`, whatever the locals are called
+    mv = None
+    oksub = False
+    if tsub and isinstance(tsub[0].ast, ast.Call) and isinstance(tsub[0].ast.func, ast.Attribute) and len(tsub[0].ast.args) == 1 \
+            and isinstance(tsub[0].ast.args[0], ast.Name):
+        mv = tsub[0].ast.args[0].id
+        built = [n_ for n_ in sc.cfg.nodes if n_.ast is not None and 'checker.match(cert_name)' in ast.unparse(n_.ast) and (
+            any(nm == mv for (nm, _) in sc.cfg.defs_of(n_)) or
+            any(isinstance(x, ast.Call) and callee_attr(x) in ('append', 'extend') and ast.unparse(x.func.value) == mv for x in ast.walk(n_.ast)))]
+        oksub = full_text(sc, tsub[0].ast.func.value) == 'checker.root_of_trust()' and bool(built)
+    tnon = [t for t in sc.cfg.nodes if t.kind == 'test' and mv is not None and ast.unparse(t.ast) == mv]
     if not tfn or sc.cfg.exit.id in reach_from_succ(sc.cfg, tfn[0], False, follow_exc=False):
         probs.append('missing user functions are not refused')
-    if not tsub or ast.unparse(tsub[0].ast) != 'root_of_trust.issubset(ta_matches)' or sc.cfg.exit.id in reach_from_succ(sc.cfg, tsub[0], False, follow_exc=False):
+    if not tsub or not oksub or sc.cfg.exit.id in reach_from_succ(sc.cfg, tsub[0], False, follow_exc=False):
         probs.append('an anchor that does not match every root of trust is not refused')
     if not tnon or sc.cfg.exit.id in reach_from_succ(sc.cfg, tnon[0], False, follow_exc=False):
         probs.append('an anchor matching no rule is not refused')
